@@ -25,6 +25,29 @@ inductive RErr where
   | panic (site : String)        -- a Go run-time panic that escapes the reader
 deriving Repr, DecidableEq, Inhabited
 
+/-- the message of the Go error (only the messages the REPL classifies by are modelled literally) -/
+def errMessage : RErr → String
+  | .eof c => "expected '" ++ c ++ "', got EOF"
+  | .unexpected c => "unexpected '" ++ c ++ "'"
+  | .trailing => "not all tokens where parsed"
+  | .empty => "<empty line>"
+  | .underflow => "read_form underflow"
+  | .badtoken => "invalid token"
+  | .badint => "integer parse error"
+  | .oddmap => "odd number of arguments to NewHashMap"
+  | .badkey => "expected hash-map key string"
+  | .badsetitem => "set items must be strings or keywords"
+  | .rawEof => "expected '¬', got EOF"
+  | .floaterr => "float parse error"
+  | .extern c => "extern: " ++ c
+  | .panic s => "panic: " ++ s
+
+/-- `repl.multiLine`: the REPL keeps reading lines exactly on these five messages -/
+def multiLine (e : RErr) : Bool :=
+  let m := errMessage e
+  m == "expected ')', got EOF" || m == "expected ']', got EOF" || m == "expected '}', got EOF" ||
+  m == "expected '»', got EOF" || m == "expected '¬', got EOF"
+
 structure Cfg where
   module : Option String := none
   /-- the placeholder table (`*HashMap`); `none` = nil pointer -/
